@@ -56,7 +56,8 @@ type PConn struct {
 	hold    [2]bool
 	held    [2][][]byte
 	closed  bool
-	ws      bool // upgraded
+	ws      bool    // upgraded
+	stall   [2]bool // stop reading that direction's source socket (back-pressure reaches the writer)
 	cond    *sync.Cond
 	endOnce sync.Once
 }
@@ -189,6 +190,14 @@ func (pc *PConn) Hold(dir int) {
 	pc.mu.Unlock()
 }
 
+// Stall makes the proxy stop reading one direction (the sender's socket buffers fill up); Unstall resumes.
+func (pc *PConn) Stall(dir int, on bool) {
+	pc.mu.Lock()
+	pc.stall[dir] = on
+	pc.cond.Broadcast()
+	pc.mu.Unlock()
+}
+
 // Release forwards up to n held frames of a direction (n < 0: all, and stop holding).
 func (pc *PConn) Release(dir int, n int) int {
 	pc.mu.Lock()
@@ -244,6 +253,11 @@ func (pc *PConn) pump(dir int, src, dst net.Conn) {
 	var msgOp byte // opcode of its first fragment
 	inMsg := false
 	for {
+		pc.mu.Lock()
+		for pc.stall[dir] && !pc.closed {
+			pc.cond.Wait()
+		}
+		pc.mu.Unlock()
 		hdr := make([]byte, 2, 14)
 		if _, err := io.ReadFull(br, hdr); err != nil {
 			return
@@ -279,6 +293,13 @@ func (pc *PConn) pump(dir int, src, dst net.Conn) {
 		if ln > 256<<20 {
 			return
 		}
+		// a stall requested while this goroutine was blocked waiting for the header takes effect before the payload is
+		// consumed (a large message is a single frame from the server: reading it would swallow the back-pressure)
+		pc.mu.Lock()
+		for pc.stall[dir] && !pc.closed {
+			pc.cond.Wait()
+		}
+		pc.mu.Unlock()
 		payload := make([]byte, ln)
 		if _, err := io.ReadFull(br, payload); err != nil {
 			return
